@@ -212,7 +212,8 @@ def writer_edges(quick=True):
     """deterministic boundary cases of the writer: payloads of every size around the initial 4096 bytes and
     around its multiples, the buffer filled to defaultSize-2..+2 followed by each kind of write, failing
     flushes (0 / some / all bytes accepted) followed by more writes, the error flag through Flush, 10^4
-    writes without a flush, 2000 writes each followed by a flush"""
+    writes without a flush, 2000 writes each followed by a flush, one reply crossing the buffer's end with a
+    (failing) Flush at every position"""
     ops = []
     sizes = [0, 1, 2] + list(range(4090, 4101)) + list(range(8185, 8196)) + list(range(12286, 12291)) + [16383, 16384, 16385, 65535, 65536, 65537, 1048576]
     for n in sizes:
@@ -268,6 +269,13 @@ def writer_edges(quick=True):
         if i % 400 == 399:
             ops.append("wr dump")
     ops += ["wr HasError", "wr dump"]
+    # one fixed sequence of writes that crosses the end of the initial buffer (an array of bulk strings, an error in
+    # the middle), with a Flush inserted at EVERY position, and with a failing Flush (3 bytes taken) at every position
+    base = ["wr WriteArray 9", "wr WriteBulk " + wr_pat(2000, "c", 0x41), "wr WriteBulkNull", "wr WriteInt64 -42", "wr WriteBulk " + wr_pat(2080, "r", 0x62),
+            "wr WriteError 45525220626f6f6d", "wr WriteBulk -", "wr WriteString 4f4b", "wr WriteBulk " + wr_pat(5000, "c", 0x30), "wr WriteUInt64 18446744073709551615"]
+    for k in range(len(base) + 1):
+        for fl in ("wr Flush", "wr FlushFail 3"):
+            ops += ["wr new"] + base[:k] + [fl, "wr HasError"] + base[k:] + ["wr Bytes", "wr Flush", "wr HasError", "wr dump"]
     return ops
 
 
